@@ -212,6 +212,10 @@ def _check_start_args(p: Program, rep: Report, fn: FuncInfo, node: ast.AST, args
         for x in headers[1]:
             _check_pair(rep, fn, node, x)
         return
+    if (elt is None or elt[0] != "tuple" or len(elt[1]) != 2) and headers[0] == "call" and headers[1][0] in ("func", "closure") and not callee_is(headers[1], "list_headers"):
+        # produced by another repository function (a shared helper that renders an exception's headers ...): not followed here
+        rep.undecide("R5.2", f"response-start headers come out of {show(headers[1])[:50]}(...): what that function returns is not followed by the header-provenance rule")
+        return
     if elt is None or elt[0] != "tuple" or len(elt[1]) != 2:
         rep.violation("R5.2", construct(fn, text=f"headers {show(headers)[:80]}"), where(fn, node), "response-start headers are neither list_headers(as_bytes=True) nor an explicit list of (name, value) pairs")
         return
@@ -387,6 +391,8 @@ def check_wsgi(p: Program, rep: Report) -> None:
                 rep.ok("R5.3", "headers = list_headers(as_bytes=False)")
             elif headers[0] == "list" and len(headers[1]) == 1 and headers[1][0][0] == "star" and _from_http_exception(p, headers[1][0]):
                 rep.ok("R5.3", "error path: headers = [*exception.headers.items()] (constants of the range exceptions)")
+            elif headers[0] == "call" and headers[1][0] in ("func", "closure") and not callee_is(headers[1], "list_headers"):
+                rep.undecide("R5.3", f"start_response headers come out of {show(headers[1])[:50]}(...): what that function returns is not followed by the header-provenance rule")
             else:
                 rep.violation("R5.3", construct(fn, text=f"headers {show(headers)[:80]}"), where(fn, node), "start_response headers are neither list_headers(as_bytes=False) nor the exception's constant headers")
         # R5.4 bytes typing of yields
@@ -492,6 +498,15 @@ def check_helpers(p: Program, rep: Report) -> None:
                 rep.violation("R5.1", construct(fn, text=f"{len(sends)} send calls"), where(fn), f"{name} calls send() {len(sends)} times (exactly one event per helper call expected)")
                 continue
             m = sends[0].b[0] if sends[0].b else None
+            if m is not None and m[0] == "mut" and m[1][0] == "dict":
+                # a dict display that was completed by item stores / update({...}) before it is sent: the display plus those stores
+                items_ = list(m[1][1])
+                for e_ in pa.events:
+                    if e_ is sends[0]:
+                        break
+                    if e_.kind == "store" and e_.a[0] == "sub" and e_.a[1] in (m, m[1]) and e_.a[2][0] == "const":
+                        items_ = [(k_, v_) for k_, v_ in items_ if k_ != e_.a[2]] + [(e_.a[2], e_.b)]
+                m = ("dict", tuple(items_))
             if m is None or m[0] != "dict" or any(k is None or k[0] != "const" for k, _v in m[1]):
                 rep.undecide("R5.1", f"{name}: the event handed to send() is not a dict display with constant keys ({show(m)[:60] if m else 'nothing'})")
                 continue
